@@ -152,23 +152,24 @@ def newSymlink (hasCE : Bool) (a : Acc) (target : Bytes) : Option Acc :=
     let s := closeSl s false
     some { cur := s.cur, dr := a.dr ++ s.doneDr, ce := a.ce ++ s.doneCe }
 
+/-- an entry that is recorded only under a condition -/
+def optPut (c hasCE : Bool) (a : Acc) (e : Ent) : Option Acc := if c then put hasCE a e else some a
+
 /-- `_assign_entries` (without AL attributes): the order of entries is SP, RR, NM*, PX, SL*, TF, CL, RE, PL, ER -/
 def assign (hasCE : Bool) (first : Bool) (ver : Ver) (name : Bytes) (target : Option Bytes)
-    (cl re pl : Bool) (cur : Nat) : Option Acc := do
-  let a : Acc := { cur := cur }
-  let a ← if first then put hasCE a (.fixed "SP" 7) else some a
-  let a ← if ver = .v109 then put hasCE a (.fixed "RR" 5) else some a
-  let a ← if name.isEmpty then some a else addName hasCE a name
-  let a ← put hasCE a (.fixed "PX" (pxLen ver))
-  let a ← match target with
+    (cl re pl : Bool) (cur : Nat) : Option Acc :=
+  (optPut first hasCE { cur := cur } (.fixed "SP" 7)).bind fun a =>
+  (optPut (ver = .v109) hasCE a (.fixed "RR" 5)).bind fun a =>
+  (if name.isEmpty then some a else addName hasCE a name).bind fun a =>
+  (put hasCE a (.fixed "PX" (pxLen ver))).bind fun a =>
+  (match target with
     | some t => if t.isEmpty then some a else newSymlink hasCE a t
-    | none => some a
-  let a ← put hasCE a (.fixed "TF" 26)
-  let a ← if cl then put hasCE a (.fixed "CL" 12) else some a
-  let a ← if re then put hasCE a (.fixed "RE" 4) else some a
-  let a ← if pl then put hasCE a (.fixed "PL" 12) else some a
-  let a ← if first then put hasCE a (.fixed "ER" (erLen ver)) else some a
-  pure a
+    | none => some a).bind fun a =>
+  (put hasCE a (.fixed "TF" 26)).bind fun a =>
+  (optPut cl hasCE a (.fixed "CL" 12)).bind fun a =>
+  (optPut re hasCE a (.fixed "RE" 4)).bind fun a =>
+  (optPut pl hasCE a (.fixed "PL" 12)).bind fun a =>
+  optPut first hasCE a (.fixed "ER" (erLen ver))
 
 structure RRLayout where
   drLen : Nat              -- new directory record length (padded to even)
@@ -182,7 +183,7 @@ deriving Repr
 def rrNew (first : Bool) (ver : Ver) (name : Bytes) (target : Option Bytes) (cl re pl : Bool) (cur : Nat) :
     Option RRLayout :=
   match assign false first ver name target cl re pl cur with
-  | some a => some { drLen := a.cur + a.cur % 2, hasCE := false, dr := a.dr, ce := [], ceLen := 0 }
+  | some a => some { drLen := a.cur + a.cur % 2, hasCE := false, dr := a.dr, ce := a.ce, ceLen := (a.ce.map Ent.len).sum }
   | none =>
     match assign true first ver name target cl re pl (cur + 28) with
     | some a =>
